@@ -172,6 +172,35 @@ fn fnv(bytes: &[u8]) -> String {
 /// Build `items` through one construction path; returns the bytes.
 pub fn build_via(path: &str, items: &[Kv], set: bool) -> Vec<u8> {
     let keys: Vec<Vec<u8>> = items.iter().map(|it| it.0.clone()).collect();
+    // several entry points on one builder: "<first>+<second>@<cut>", each of ins / iter / stream
+    if let Some(at) = path.find('@') {
+        let cut: usize = path[at + 1..].parse().unwrap();
+        let cut = std::cmp::min(cut, items.len());
+        let (first, second) = {
+            let mut it = path[..at].split('+');
+            (it.next().unwrap(), it.next().unwrap())
+        };
+        if set {
+            let mut b = fst::SetBuilder::memory();
+            for (how, part) in [(first, &keys[..cut]), (second, &keys[cut..])].iter() {
+                match *how {
+                    "ins" => part.iter().for_each(|k| b.insert(k).unwrap()),
+                    "iter" => b.extend_iter(part.iter().cloned()).unwrap(),
+                    _ => b.extend_stream(VecStreamSet { items: part.iter().map(|k| (k.clone(), 0)).collect(), i: 0 }).unwrap(),
+                }
+            }
+            return b.into_inner().unwrap();
+        }
+        let mut b = fst::MapBuilder::memory();
+        for (how, part) in [(first, &items[..cut]), (second, &items[cut..])].iter() {
+            match *how {
+                "ins" => part.iter().for_each(|(k, v)| b.insert(k, *v).unwrap()),
+                "iter" => b.extend_iter(part.iter().map(|(k, v)| (k.clone(), *v))).unwrap(),
+                _ => b.extend_stream(VecStreamMap { items: part.to_vec(), i: 0 }).unwrap(),
+            }
+        }
+        return b.into_inner().unwrap();
+    }
     match (path, set) {
         ("raw_insert", false) => {
             let mut b = Builder::memory();
@@ -310,6 +339,21 @@ pub fn c15_inputs(seed: u64, tier: &str) -> Vec<(String, Vec<Kv>, bool)> {
         let items = assign(keys, mode, &mut r);
         out.push((format!("{}#{}#{:?}#{}", i, name, mode, if set { "set" } else { "map" }), items, set));
     }
+    // keys that end in the whole of the key before them: every tail node of the later key is a
+    // cache hit, so its first node refers to the node written last
+    let chains: Vec<Vec<&str>> = vec![
+        vec!["ear", "fear", "gear", "hear", "near", "tear"],
+        vec!["a", "ba", "cba", "dcba", "edcba"],
+        vec!["ing", "king", "liking", "making", "ring", "string", "zing"],
+        vec!["0x", "10x", "110x", "2", "20x", "3", "30x", "330x"],
+    ];
+    for (j, c) in chains.into_iter().enumerate() {
+        let keys: Vec<Vec<u8>> = c.iter().map(|k| k.as_bytes().to_vec()).collect();
+        for (mode, set) in [(ValMode::Zero, true), (ValMode::Zero, false), (ValMode::Index, false)].iter() {
+            let items = assign(keys.clone(), *mode, &mut r);
+            out.push((format!("chain{}#{:?}#{}", j, mode, if *set { "set" } else { "map" }), items, *set));
+        }
+    }
     out
 }
 
@@ -326,6 +370,20 @@ pub fn c15(log: &mut Log, seed: u64, tier: &str) {
             for rep in 0..(if big { 1 } else { 2 }) {
                 let bytes = build_via(path, items, *set);
                 log.ev(json!({"ev": "Built", "input": name, "path": path, "thread": 0, "pid": 0, "rep": rep, "digest": fnv(&bytes)}));
+            }
+        }
+        // several entry points on the same builder, switching at every position of small inputs
+        if items.len() <= 48 || idx % 6 == 1 {
+            let n = items.len();
+            let cuts: Vec<usize> = if n <= 48 { (0..=n).collect() } else { (0..8).map(|j| (j * 131 + idx) % (n + 1)).collect() };
+            let combos = ["ins+stream", "ins+iter", "stream+ins", "iter+stream", "stream+stream", "iter+ins"];
+            for (ci, &cut) in cuts.iter().enumerate() {
+                let some: Vec<&str> = if n <= 16 { combos.to_vec() } else { vec![combos[0], combos[1 + (ci + idx) % 5]] };
+                for combo in some {
+                    let path = format!("{}@{}", combo, cut);
+                    let bytes = build_via(&path, items, *set);
+                    log.ev(json!({"ev": "Built", "input": name, "path": path, "thread": 0, "pid": 0, "rep": 0, "digest": fnv(&bytes)}));
+                }
             }
         }
         // parallel threads
